@@ -16,8 +16,11 @@ a sequence, terminates and stops at the end of input is monitored on every gener
 correspondence run (the premises `eventsBalanced`, `fpOk`, `consumesAll`, `kindsAgree`, `noEof`,
 `tiles`, `onBoundaries` are evaluated on the real token and event streams; operations reconstructed
 from the real stream are checked against `Disciplined` and re-run by the model parser, which must
-reproduce the real events and error ranges), not proved.  Purity and the trivia-insertion clause of
-the property are tested on the implementation only.
+reproduce the real events and error ranges), not proved.  Purity is tested on the implementation
+only.  Of the trivia-insertion clause the lexer's part is proved (`c12_lex_trivia_barrier`,
+`c12_lex_trivia_insertion`, `c12_lex_trivia_insertion_kinds`: the parser sees the same significant
+token kinds after an insertion at a token boundary); that the grammar functions then build the same
+tree is tested on the implementation only.
 -/
 namespace TrustVerif.C12
 
@@ -39,6 +42,66 @@ never creates a token range that `&source[lo..hi]` cannot slice (no panic in `Si
 theorem c12_lex_boundaries (L : Lang) (src : List Nat) (raw : List Tok)
     (h : onBoundaries src raw = true) : onBoundaries src (postpass L src raw) = true :=
   onBoundaries_postpass L src raw h
+
+/-- **Trivia-insertion clause, lexer level (1): a trivia token is a barrier.**  The post-pass of
+`Lexer::next` keeps no state across a raw token that is neither an `IntLiteral` nor a `Dot` (every
+whitespace, comment and pragma token): the raw streams on both sides are processed independently and
+the token itself is handed on unchanged.  In particular the kind of the token behind a piece of
+trivia never depends on what stands in front of it (and the kind of a token never depends on
+whether trivia follows) - the lexer's contribution to "same tree shape after insertion".  A lexer
+that re-classifies a word by a flag which trivia tokens update breaks the correspondence of this
+model with `lex` (operation `lex` of the differential run). -/
+theorem c12_lex_trivia_barrier (L : Lang) (src : List Nat) (a b : List Tok) (tr : Tok)
+    (hk1 : tr.kind ≠ L.int) (hk2 : tr.kind ≠ L.dot) :
+    postpass L src (a ++ tr :: b) = postpass L src a ++ tr :: postpass L src b :=
+  postpass_barrier L src tr b hk1 hk2 a
+
+/-- **Trivia-insertion clause, lexer level (2): insertion into the text.**  Let the text be `p ++ q`,
+let the raw stream be `a ++ b` with the tokens of `a` inside `p` and those of `b` inside `q`, and
+let a piece of trivia `w` be inserted between them, so that the raw stream of `p ++ w ++ q` is `a`,
+the trivia token, and `b` moved by `|w|` bytes (that logos answers so is the monitored premise
+"the texts of the significant tokens are untouched").  Then the final token list of the new text is
+the final list of `a`, the trivia token, and the final list of `b` moved by `|w|` bytes - for every
+text, every piece and every raw stream (the `IntLiteral`-dot split looks at the bytes of the text:
+they are the same bytes at the moved positions). -/
+theorem c12_lex_trivia_insertion (L : Lang) (p w q : List Nat) (a b : List Tok) (tr : Tok)
+    (ha : ∀ t ∈ a, t.hi ≤ p.length) (hb : ∀ t ∈ b, p.length ≤ t.lo)
+    (hk1 : tr.kind ≠ L.int) (hk2 : tr.kind ≠ L.dot) :
+    postpass L (p ++ w ++ q) (a ++ tr :: b.map (shiftTok w.length)) =
+      postpass L (p ++ q) a ++ tr :: (postpass L (p ++ q) b).map (shiftTok w.length) :=
+  postpass_insert L p w q a b tr ha hb hk1 hk2
+
+/-- **Trivia-insertion clause, lexer level (3): the parser sees the same tokens.**  If moreover the
+insertion point is a boundary between two FINAL tokens (`hsplit`: the post-pass does not join the
+last token of `a` with the first of `b`, as it does for `1.` + `.`), the kinds of the significant
+tokens - everything the grammar functions look at - are the same before and after the insertion.
+What the grammar then does with equal token kinds is not modelled: that part of the clause is
+tested on the implementation (random insertions, sweep, kwpos family). -/
+theorem c12_lex_trivia_insertion_kinds (L : Lang) (p w q : List Nat) (a b : List Tok) (tr : Tok)
+    (ha : ∀ t ∈ a, t.hi ≤ p.length) (hb : ∀ t ∈ b, p.length ≤ t.lo)
+    (hk1 : tr.kind ≠ L.int) (hk2 : tr.kind ≠ L.dot) (htr : L.isTrivia tr.kind = true)
+    (hsplit : postpass L (p ++ q) (a ++ b) = postpass L (p ++ q) a ++ postpass L (p ++ q) b) :
+    sigKinds L (postpass L (p ++ w ++ q) (a ++ tr :: b.map (shiftTok w.length))) =
+      sigKinds L (postpass L (p ++ q) (a ++ b)) :=
+  sigKinds_insert L p w q a b tr ha hb hk1 hk2 htr hsplit
+
+/-- Non-vacuity: `1..2` (raw logos stream `1.` `.` `2`, final tokens `1` `..` `2`) with a space
+inserted between `..` and `2`: all hypotheses hold and the parser sees Int, DotDot, Int. -/
+example :
+    (∀ t ∈ [(⟨10, 0, 2⟩ : Tok), ⟨11, 2, 3⟩], t.hi ≤ [49, 46, 46].length) ∧
+    (∀ t ∈ [(⟨10, 3, 4⟩ : Tok)], [49, 46, 46].length ≤ t.lo) ∧
+    postpass exL ([49, 46, 46] ++ [50]) ([⟨10, 0, 2⟩, ⟨11, 2, 3⟩] ++ [⟨10, 3, 4⟩]) =
+      postpass exL ([49, 46, 46] ++ [50]) [⟨10, 0, 2⟩, ⟨11, 2, 3⟩] ++ postpass exL ([49, 46, 46] ++ [50]) [⟨10, 3, 4⟩] ∧
+    sigKinds exL (postpass exL ([49, 46, 46] ++ [32] ++ [50])
+      ([⟨10, 0, 2⟩, ⟨11, 2, 3⟩] ++ ⟨0, 3, 4⟩ :: [⟨10, 3, 4⟩].map (shiftTok 1))) = [10, 12, 10] := by
+  decide
+
+/-- Sharpness of `hsplit`: between the raw tokens `1.` and `.` of `1..2` there is no boundary of the
+final token list (the post-pass joins them into `1` `..`), so that position is not one the clause
+talks about. -/
+example : postpass exL [49, 46, 46, 50] ([⟨10, 0, 2⟩] ++ [⟨11, 2, 3⟩, ⟨10, 3, 4⟩]) ≠
+    postpass exL [49, 46, 46, 50] [⟨10, 0, 2⟩] ++ postpass exL [49, 46, 46, 50] [⟨11, 2, 3⟩, ⟨10, 3, 4⟩] := by
+  decide
 
 /-- **The concatenated token texts equal the input byte for byte**: the texts of a tiling of
 `[0, |src|)` concatenate to `src`. -/
